@@ -5,6 +5,7 @@ import Pxv.Driver.Store
 import Pxv.Driver.Session
 import Pxv.Driver.ReqData
 import Pxv.Driver.Config
+import Pxv.Driver.Ty
 open Pxv.Driver
 
 def main (args : List String) : IO UInt32 := do
@@ -16,4 +17,5 @@ def main (args : List String) : IO UInt32 := do
   | ["session"] => serve Pxv.Session.handle; return 0
   | ["reqdata"] => serve Pxv.ReqData.handle; return 0
   | ["config"] => serve Pxv.Config.handle; return 0
+  | ["ty"] => serve Pxv.Ty.handle; return 0
   | _ => IO.eprintln "usage: pxmodel <model>"; return 2
